@@ -36,7 +36,7 @@ Qed.
 
 (* ---------------------------------------------------------------- body-fld-param *)
 Definition pair_g : G :=
-  Map (mk_action (PTuple [PVar "key"; PWild; PVar "val"]) (ATuple [AVar "key"; AVar "val"]))
+  Map (mk_action (PTuple [PVar "p0"; PWild; PVar "p2"]) (ATuple [AVar "p0"; AVar "p2"]))
       (Seq [(Ref f_core_x_string_utf8 DSame); (Leaf (LTag (bs " "))); (Ref f_core_x_string_utf8 DSame)]).
 
 Lemma ok_param_pair p w d : enc_param_pair p w -> OK pair_g d w p any.
